@@ -12,7 +12,7 @@ import random
 import sys
 
 sys.path.insert(0, __import__('os').path.dirname(__file__))
-from common import SymLog, UserError, check_import, dump, exc_name, from_json, to_json  # noqa
+from common import SymLog, UserError, check_import, dump, exc_name, fname, from_json, hash_json, to_json  # noqa
 
 check_import()
 from connectome.cache import MemoryCache  # noqa
@@ -141,6 +141,75 @@ def gen_case(rnd, max_inner, n_caches_max=3):
     return {'nodes': nodes, 'out': out, 'caches': caches, 'calls': calls}
 
 
+def reachable_nodes(case):
+    seen, stack = set(), [case['out']]
+    while stack:
+        n = stack.pop()
+        if n in seen:
+            continue
+        seen.add(n)
+        stack.extend(case['nodes'][n].get('ps', ()))
+    return seen
+
+
+def mutate(case, rnd):
+    """a single-step mutant: another function, constant, wiring, argument order or keyword binding (None if no site)"""
+    import copy
+    m = copy.deepcopy({k: case[k] for k in ('nodes', 'out', 'caches', 'calls')})
+    m['calls'] = m['calls'][:1]
+    for c in m['calls']:
+        c['bad'] = []
+    sites = [i for i in sorted(reachable_nodes(case)) if case['nodes'][i]['k'] in ('func', 'const', 'product', 'switch', 'byvalue', 'impure')]
+    rnd.shuffle(sites)
+    for i in sites:
+        d = m['nodes'][i]
+        target = d['inner'] if d['k'] in ('byvalue', 'impure') else d
+        kinds = []
+        if target['k'] == 'func':
+            kinds.append('symbol')
+            if target['kw']:
+                kinds.append('kw')
+            if len(set(d['ps'])) >= 2:
+                kinds.append('swap')
+        elif target['k'] == 'const':
+            kinds.append('const')
+        elif target['k'] == 'product' and len(set(d['ps'])) >= 2:
+            kinds.append('swap')
+        elif d['k'] == 'switch' and d['n'] >= 2:
+            kinds.append('route')
+        if len(m['nodes']) > 1 and d.get('ps'):
+            kinds.append('rewire')
+        if not kinds:
+            continue
+        kind = rnd.choice(kinds)
+        if kind == 'symbol':
+            target['f'] = target['f'] + 'x'
+        elif kind == 'kw':
+            free = [x for x in ['a', 'b', 'c', 'd', 'e'] if x not in target['kw']]
+            j = rnd.randrange(len(target['kw']))
+            target['kw'][j] = rnd.choice(free)
+            target['kw'].sort()
+        elif kind == 'swap':
+            a, b = [j for j in range(len(d['ps']))][:2] if d['ps'][0] != d['ps'][1] else (0, next(j for j in range(len(d['ps'])) if d['ps'][j] != d['ps'][0]))
+            d['ps'][a], d['ps'][b] = d['ps'][b], d['ps'][a]
+        elif kind == 'const':
+            target['v'] = {'s': 'other-constant'}
+        elif kind == 'route':
+            key, idx = d['table'][0]
+            d['table'][0] = [key, (idx + 1) % d['n']]
+        elif kind == 'rewire':
+            j = rnd.randrange(len(d['ps']))
+            if d['k'] == 'checkids' and j == 1:
+                continue
+            choices = [x for x in range(i) if x != d['ps'][j]]
+            if not choices:
+                continue
+            d['ps'][j] = rnd.choice(choices)
+        m['mutation'] = {'node': i, 'kind': kind}
+        return m
+    return None
+
+
 def build_edge(d, sym, storages):
     k = d['k']
     if k == 'func':
@@ -193,8 +262,16 @@ def run_case(case):
         except BaseException as e:  # noqa
             res = {'exc': exc_name(e)}
         log = sym.take()
-        # interleave the calls into the trace: the symbolic functions append to TRACE as well
-        obs.append({'res': res, 'log': log, 'trace': [list(x) for x in TRACE]})
+        trace = [list(x) for x in TRACE]
+        # the node hash of the output, computed right after the call on the same caches
+        sym.bad = set()
+        try:
+            h, _ = g.get_hash(*[kwargs[n.name] for n in g.inputs])
+            hj = hash_json(h.value, fname)
+        except BaseException:  # noqa
+            hj = {'exc': True}
+        sym.take()
+        obs.append({'res': res, 'log': log, 'trace': trace, 'hash': hj})
     case['obs'] = obs
     return case
 
@@ -210,6 +287,7 @@ def install_call_trace():
             return f(*a, **k)
 
         g.__name__ = g.__qualname__ = name
+        g._symbolic = True
         return g
 
     SymLog.make = make2
@@ -240,6 +318,7 @@ def main():
     ap.add_argument('--max-inner', type=int, default=14)
     ap.add_argument('--out', required=True)
     ap.add_argument('--corpus', default=None)
+    ap.add_argument('--mutants', type=int, default=0)
     a = ap.parse_args()
     install()
     install_call_trace()
@@ -257,7 +336,16 @@ def main():
         mi = a.max_inner if i % 4 else max(3, a.max_inner * 3)
         cases.append(gen_case(rnd, mi))
     out = [run_case(c) for c in cases]
-    dump({'cases': out, 'mro': mro_table()}, a.out)
+    mutants = []
+    if a.mutants:
+        mr = random.Random(a.seed + 7919)
+        for i, c in enumerate(cases):
+            for _ in range(a.mutants):
+                m = mutate(c, mr)
+                if m is not None:
+                    m['mutant_of'] = i
+                    mutants.append(run_case(m))
+    dump({'cases': out, 'mutants': mutants, 'mro': mro_table()}, a.out)
 
 
 if __name__ == '__main__':
